@@ -21,6 +21,10 @@ OrderedBook == [Full(2, 1) EXCEPT !.ordered = 1, !.entries = 5, !.lens = <<1, 2,
 SparseBook == [Full(2, 1) EXCEPT !.sparse = 1, !.entries = 6, !.lens = <<2, 0, 2, 2, 0, 2>>]
 SingleBook == [Full(2, 1) EXCEPT !.sparse = 1, !.entries = 3, !.lens = <<0, 1, 0>>]
 
+\* a lattice book with any number of entries: complete tree with lengths k and k + 1; values -1, 0, 1, ... per lattice coordinate
+LatticeN(n, dim) == LET k == ILog(n) - 1  a == Pow2(k + 1) - n IN
+                    [dim |-> dim, entries |-> n, ordered |-> 0, sparse |-> 0, lens |-> [i \in 1..n |-> IF n = Pow2(k) THEN k ELSE IF i <= a THEN k ELSE k + 1], maptype |-> 1,
+                     qmin |-> PackedInt(-1), qdelta |-> PackedInt(1), qbits |-> 4, qseq |-> 0, quant |-> [i \in 1..QuantVals1(n, dim) |-> (i - 1) % 16]]
 Floor1(bookidx, rb) == [type |-> 1, parts |-> <<0>>, cdim |-> <<2>>, csubs |-> <<0>>, cbook |-> <<0>>, csub |-> << <<bookidx>> >>, mult |-> 1, rb |-> rb, posts |-> <<Pow2(rb - 1), Pow2(rb - 2)>>]
 Floor0(bookidx) == [type |-> 0, order |-> 2, frate |-> 8000, bark |-> 16, ampbits |-> 4, ampdb |-> 100, fbooks |-> <<bookidx>>]
 Res(t, e0, stages) == [type |-> t, begin |-> 0, end |-> Pow2(e0 - 1), psize |-> 8, nclass |-> 2, gbook |-> 1, cascade |-> IF stages THEN <<1, 0>> ELSE <<0, 0>>, rbooks |-> IF stages THEN <<2>> ELSE <<>>]
@@ -129,6 +133,14 @@ ResCases == { [name |-> "residue-explicit-values", seq |-> TRUE, s |-> [ResSetup
                                !.maps = << [submaps |-> 2, coupling |-> cp, mux |-> <<0, 1, 0>>, sfloor |-> <<0, 1>>, sres |-> <<0, 1>>] >>],
                fls |-> << <<1, 1, 1>>, <<1, 0, 1>>, <<0, 1, 0>>, <<0, 0, 1>>, <<1, 1, 0>> >>] :
                 rta \in {0, 1, 2}, rtb \in {0, 1, 2}, cp \in { <<>>, << <<0, 2>> >>, << <<0, 1>> >>, << <<1, 2>>, <<0, 1>> >> } } \cup
+            { [name |-> "residue-lattice-sizes", seq |-> FALSE, s |-> [ResSetup(1, 6, 6, 1, 8, FALSE) EXCEPT !.books[3] = LatticeN(n, dim), !.residues[1].cascade = <<1, 0>>, !.residues[1].rbooks = <<2>>]] :
+                n \in {2, 3, 4, 5, 7, 8, 9, 15, 16, 17, 24, 25, 26, 27, 28, 31, 32, 33}, dim \in 1..5 } \cup
+            { [name |-> "residue-sparse-value-books", seq |-> FALSE,
+               s |-> [ResSetup(ch, 6, 7, rt, 8, FALSE) EXCEPT
+                        !.books[3] = [dim |-> 2, entries |-> 6, ordered |-> 0, sparse |-> 1, lens |-> <<2, 0, 2, 2, 0, 2>>, maptype |-> 2, qmin |-> PackedInt(-3), qdelta |-> PackedInt(1), qbits |-> 4, qseq |-> sq,
+                                      quant |-> <<0, 1, 2, 3, 4, 5, 6, 7, 8, 9, 10, 11>>],
+                        !.books[4] = [dim |-> 2, entries |-> 7, ordered |-> 0, sparse |-> 1, lens |-> <<0, 1, 0, 2, 3, 0, 3>>, maptype |-> 1, qmin |-> PackedInt(-1), qdelta |-> PackedInt(1), qbits |-> 2, qseq |-> 0,
+                                      quant |-> <<0, 1>>]]] : ch \in {1, 2}, rt \in {0, 1, 2}, sq \in {0, 1} } \cup
             { [name |-> "residue-dim-not-dividing", seq |-> FALSE, s |-> [ResSetup(ch, 6, 7, rt, 8, FALSE) EXCEPT !.books[3] = Lattice(2, dd[1]), !.books[4] = VarBook(dd[2], 1)]] :
                 ch \in {1, 2}, rt \in {0, 1, 2}, dd \in {<<3, 5>>, <<100, 3>>, <<7, 1000>>, <<16, 12>>} } \cup
             { [name |-> "residue", seq |-> FALSE, s |-> ResSetup(ch, 6, e1, rt, ps, cp)] : ch \in {1, 2}, e1 \in {6, 7}, rt \in {0, 1, 2}, ps \in {4, 8}, cp \in {FALSE, TRUE} }
@@ -150,10 +162,11 @@ FP(s, mode, lw, nw, salt, fl) == [W |-> s.modes[mode + 1].bf, ns |-> 1, f |-> Fu
                                   fit |-> IF fl[s.ch] = 1 THEN Floor1Fit(s, LastFloor(s, mode), salt + s.ch) ELSE <<>>,
                                   yc |-> IF fl[s.ch] = 1 THEN Floor1Curve(s, LastFloor(s, mode), salt + s.ch, HalfOf(s, mode)) ELSE <<>>,
                                   rv |-> PacketResidue(s, mode, salt, fl), cv |-> PacketSpectrum(s, mode, salt, fl)]
-FullAudio(s, fls) == << FP(s, 0, 0, 0, 1, fls[1]), FP(s, 1, 0, 1, 2, fls[2]), FP(s, 1, 1, 0, 3, fls[3]), FP(s, 0, 0, 0, 4, fls[4]), FP(s, 0, 0, 0, 5, fls[5]) >>
+WithCW(s0) == s0 @@ [cw |-> [b \in 1..Len(s0.books) |-> Codewords(s0.books[b].lens)]]
+FullAudio(s0, fls) == LET s == WithCW(s0) IN << FP(s, 0, 0, 0, 1, fls[1]), FP(s, 1, 0, 1, 2, fls[2]), FP(s, 1, 1, 0, 3, fls[3]), FP(s, 0, 0, 0, 4, fls[4]), FP(s, 0, 0, 0, 5, fls[5]) >>
 \* the twin needs the packets only
 FPbits(s, mode, lw, nw, salt, fl) == [W |-> s.modes[mode + 1].bf, ns |-> 1, f |-> FullPacket(s, mode, lw, nw, salt, fl)]
-TwinAudio(s, fls) == << FPbits(s, 0, 0, 0, 1, fls[1]), FPbits(s, 1, 0, 1, 2, fls[2]), FPbits(s, 1, 1, 0, 3, fls[3]), FPbits(s, 0, 0, 0, 4, fls[4]), FPbits(s, 0, 0, 0, 5, fls[5]) >>
+TwinAudio(s0, fls) == LET s == WithCW(s0) IN << FPbits(s, 0, 0, 0, 1, fls[1]), FPbits(s, 1, 0, 1, 2, fls[2]), FPbits(s, 1, 1, 0, 3, fls[3]), FPbits(s, 0, 0, 0, 4, fls[4]), FPbits(s, 0, 0, 0, 5, fls[5]) >>
 \* floor flags of the five packets of a case: all in use unless the case says otherwise
 Fls(cs) == IF "fls" \in DOMAIN cs THEN cs.fls ELSE [k \in 1..5 |-> Ones(cs.s.ch)]
 \* the same classes and the same residue values, but one classification word per partition instead of one per pair: an identical spectrum through a different layout
